@@ -43,7 +43,7 @@ PROPS = {
             "rule": PIPE_RULE},
     "C07": {"lean": ["C07"], "expected": ["Wiring", "Ctors", "K07", "Globals"], "streams": [{"name": "pipe", "gen": "pipe", "args": {"focus": "requests"}}, {"name": "pipe2", "gen": "pipe", "args": {"focus": "responses"}}, {"name": "wire", "gen": "wire", "args": {"focus": "c07"}}, {"name": "udpwire", "gen": "frame", "args": {"focus": "udpwire"}}], "also": ["C12", "C02"],
             "rule": PIPE_RULE},
-    "C12": {"lean": ["C12"], "expected": ["K12", "Globals"], "streams": [{"name": "pipe", "gen": "pipe", "args": {"focus": "tcp"}}],
+    "C12": {"lean": ["C12"], "expected": ["K12", "Globals"], "streams": [{"name": "pipe", "gen": "pipe", "args": {"focus": "tcp"}}, {"name": "wire", "gen": "wire", "args": {"focus": "c12"}}],
             "rule": PIPE_RULE},
     "C13": {"lean": ["C13"], "expected": ["Globals"], "streams": [{"name": "pipe", "gen": "pipe", "args": {"focus": "requests"}}, {"name": "cfg", "gen": "cfg", "args": {"focus": "keep"}}, {"name": "cfg2", "gen": "cfg", "args": {"focus": "hosts"}}],
             "rule": PIPE_RULE},
